@@ -30,7 +30,10 @@ class Report:
             self.signatures.add(sig if isinstance(sig, str) else json.dumps(sig, sort_keys=True, default=str))
 
     def fail(self, clause, inp, got=None, expected=None, known=None):
-        if len(self.failures) < 50:
+        # failures covered by a recorded known finding and new failures are capped separately, so that a flood of the former can
+        # never crowd out one of the latter
+        kept = sum(1 for f in self.failures if bool(f["known"]) == bool(known))
+        if kept < (25 if known else 50):
             self.failures.append({"clause": clause, "input": inp, "got": got, "expected": expected, "known": known})
         else:
             self.failures_more = getattr(self, "failures_more", 0) + 1
@@ -207,7 +210,12 @@ def case_raire_readers(rep):
         finally:
             os.unlink(path)
         for bid, cons in exp.items():
-            for cid, ranks in cons.items():
+            for cid, _ranks in cons.items():
+                # what the AUDIT's reader actually holds for this card and contest (not the oracle's reading)
+                ranks = got.get(bid, {}).get(cid)
+                if ranks is None:
+                    rep.fail("both readers see every (card, contest)", inp, got="audit reader misses " + bid + "/" + cid)
+                    continue
                 audit_order = [c for c, _ in sorted(ranks.items(), key=lambda kv: kv[1]) if c in cands[cid]]
                 rb = rcvrs.get(bid, {}).get(cid)
                 if rb is None:
@@ -349,9 +357,13 @@ def case_sampling_escalation(rep):
                 rep.fail("continue: same cards as a fresh draw with the new sizes, no repetition", inp,
                          got={"continued": rc}, expected={"fresh": exp2}, known="K5" if skipped else None)
             elif not all(cons[c].sample_threshold == thr2[c] for c in contests if sizes2[c] >= 1):
-                # thresholds are only revisited for newly walked cards: stale / unset when an earlier card already serves the contest
+                # K5 (recorded): thresholds are only revisited for newly walked cards, so the threshold of a contest whose size GREW is
+                # stale / unset when a card selected earlier already serves it.  A contest whose size did not change must simply keep
+                # its threshold: a wrong one there is not K5.
+                wrong = [c for c in contests if sizes2[c] >= 1 and cons[c].sample_threshold != thr2[c]]
                 rep.fail("continue: thresholds as a fresh draw with the new sizes", inp,
-                         got={c: cons[c].sample_threshold for c in contests}, expected=thr2, known="K5")
+                         got={c: cons[c].sample_threshold for c in contests}, expected=thr2,
+                         known="K5" if (skipped or all(sizes2[c] > sizes[c] for c in wrong)) else None)
     rep.sample({"styles": [["A"], [], ["A"]], "sample_nums": [1.5, 3.0, 4.5], "round1": {"A": 1, "B": 0}, "round2": {"A": 2, "B": 0}})
 
 
@@ -520,8 +532,14 @@ def case_find_sample_size(rep):
     for N in (10, 30):
         for tw in range(1, N + 1):
             for tl in range(0, min(tw, N - tw + 1)):
-                con, asn, rec = mk("POLLING", max((tw - tl) / N, 0.01), N, tally={"W": tw, "L": tl})
-                inp = {"audit_type": "POLLING", "N": N, "tally": {"W": tw, "L": tl}}
+              for third in (None, 0, (N - tw - tl) // 2, N - tw - tl):          # votes for a third candidate (None: two-candidate contest)
+                if third is not None and third < 0:
+                    continue
+                tally = {"W": tw, "L": tl} if third is None else {"W": tw, "L": tl, "O": third}
+                con, asn, rec = mk("POLLING", max((tw - tl) / N, 0.01), N, tally=tally)
+                if third is not None:
+                    con.candidates = ["W", "L", "O"]
+                inp = {"audit_type": "POLLING", "N": N, "tally": tally}
                 rep.case(inp)
                 try:
                     asn.find_sample_size()
@@ -1007,12 +1025,30 @@ def _contradicts(a, order):
     return frozenset(order[:j]) == E and l in order[j + 1:]
 
 
+def _irv_winner(cands, ballots):
+    """the IRV winner of a profile by the textbook rule, None on any tie for elimination"""
+    standing = list(cands)
+    while len(standing) > 1:
+        t = {c: 0 for c in standing}
+        for b in ballots:
+            for c in b:
+                if c in standing:
+                    t[c] += 1
+                    break
+        m = min(t.values())
+        losers = [c for c in standing if t[c] == m]
+        if len(losers) > 1:
+            return None
+        standing.remove(losers[0])
+    return standing[0]
+
+
 def case_raire(rep):
     from shangrla.raire import raire_utils as RU
     from shangrla.raire.raire import compute_raire_assertions
     from shangrla.raire.sample_estimator import bp_estimate, cp_estimate
     rep.bound = "3 candidates: every multiset of <= 4 ballots (5 thorough) over all 16 partial rankings; 4 candidates: 1500 (8000) random " \
-                "profiles of <= 6 ballots; 2 candidates: <= 5 ballots; every reported winner; both difficulty functions; with and without " \
+                "profiles of <= 6 ballots; 5 candidates: 900 (6000) random profiles of 4-14 ballots with their true winner; 2 candidates: <= 5 ballots; every reported winner; both difficulty functions; with and without " \
                 "an order hint; contest total = #ballots and #ballots+3"
     rng = rep.rng
 
@@ -1032,6 +1068,10 @@ def case_raire(rep):
         r4 = rankings(c4)
         for _ in range(8000 if thorough(rep) else 1500):
             yield c4, tuple(rng.choice(r4) for _ in range(rng.randint(1, 6)))
+        # 5 candidates: nodes deeper than the dive's own expansion exist only from 5 candidates on (best-ancestor bookkeeping)
+        c5 = ["A", "B", "C", "D", "E"]
+        for _ in range(6000 if thorough(rep) else 900):
+            yield c5, tuple(tuple(rng.sample(c5, rng.randint(1, 5))) for _ in range(rng.randint(4, 14)))
 
     for cands, prof in profiles():
         ballots = [b for b in prof]
@@ -1043,6 +1083,8 @@ def case_raire(rep):
             for fname, asn_func in (("bp", bp_estimate), ("cp", cp_estimate)):
                 T = _true_assertions(cands, ballots, total, asn_func)
                 for winner in cands:
+                    if len(cands) >= 5 and (extra or winner != _irv_winner(cands, ballots)):
+                        continue        # 5 candidates: the true winner only (other winners give the empty answer, covered at 2-4 candidates)
                     alt_orders = [o for o in itertools.permutations(cands) if o[-1] != winner]
                     cover = {o: [a for a in T if _contradicts(a, o)] for o in alt_orders}
                     possible = all(cover[o] for o in alt_orders)
@@ -1515,3 +1557,68 @@ def case_irv_predicates(rep):
                         rep.fail("IRV_ELIMINATION assorter = (w - l + 1)/2 of the generator's NEN verdicts",
                                  {"ranking": rk, "winner": w, "loser": l, "eliminated": E}, got=got, expected=exp)
     rep.sample({"ranking": ["2", "12", "1"], "winner": "1", "loser": "2", "eliminated": ["12"]})
+
+
+# =========================================================================================== C12 / C11 / C13: integer-typed samples
+
+def case_nonneg_dtype(rep):
+    """The deductive obligations model observations as (extended) reals.  The published definitions do not depend on how the
+    observations are typed, so every test / estimator / bet must return the same history for a sample given as Python ints, as an
+    integer numpy array and as a float array with the same values (the float run is the one the obligations are about)."""
+    from shangrla.core.NonnegMean import NonnegMean
+    lens = (1, 2, 3, 4) if not thorough(rep) else (1, 2, 3, 4, 5, 6)
+    rep.bound = f"all samples over {{0,1}} (u=1) and {{0,1,2}} (u=2) of length {lens}, N in {{inf, len+3}}, each test with each shipped estimator / bet"
+    configs = []
+    for est in ("fixed_alternative_mean", "shrink_trunc", "optimal_comparison"):
+        configs.append(("alpha_mart", {"estim": est}))
+    for bet in ("fixed_bet", "agrapa"):
+        configs.append(("betting_mart", {"bet": bet}))
+    for tname in ("kaplan_markov", "kaplan_wald", "kaplan_kolmogorov", "wald_sprt"):
+        configs.append((tname, {}))
+
+    def same(a, b):
+        a, b = np.asarray(a, dtype=float), np.asarray(b, dtype=float)
+        return a.shape == b.shape and np.allclose(a, b, rtol=1e-12, atol=1e-15, equal_nan=True)
+
+    for u, vals in ((1, (0, 1)), (2, (0, 1, 2))):
+        for n in lens:
+            for xs in itertools.product(vals, repeat=n):
+                if len(vals) == 3 and n > 4:
+                    continue
+                for N in (np.inf, n + 3):
+                    for tname, kw in configs:
+                        if tname in ("kaplan_kolmogorov",) and N == np.inf:
+                            continue
+                        if tname in ("kaplan_markov", "kaplan_wald") and N != np.inf:
+                            continue
+                        inp = {"test": tname, "u": u, "N": ("inf" if N == np.inf else N), "x": list(xs), **{k: v for k, v in kw.items()}}
+                        outs = {}
+                        for label, x in (("float array", np.array(xs, dtype=float)), ("int array", np.array(xs, dtype=int)), ("list of ints", list(xs))):
+                            try:
+                                kwargs = dict(u=u, N=N, t=u / 2 if u == 1 else 0.75, eta=0.75 * u, lam=0.5 / u, g=0.1)
+                                if "estim" in kw:
+                                    kwargs["estim"] = getattr(NonnegMean, kw["estim"])
+                                if "bet" in kw:
+                                    kwargs["bet"] = getattr(NonnegMean, kw["bet"])
+                                kwargs["test"] = getattr(NonnegMean, tname)
+                                t = NonnegMean(**kwargs)
+                                with np.errstate(all="ignore"):
+                                    p, hist = t.test(x)
+                                outs[label] = ("ok", float(p), np.asarray(hist, dtype=float).tolist())
+                            except Exception as ex:
+                                outs[label] = ("raise", type(ex).__name__, None)
+                        rep.case(inp)
+                        ref = outs["float array"]
+                        for label in ("int array", "list of ints"):
+                            o = outs[label]
+                            if ref[0] == "raise" or o[0] == "raise":
+                                # a sample the float run accepts must be accepted whatever its typing (a list may be rejected where
+                                # the code documents an array argument: only the int ARRAY is held to this)
+                                if ref[0] == "ok" and o[0] == "raise" and label == "int array":
+                                    rep.fail("integer-typed sample accepted like the float sample", inp, got=o[1])
+                                continue
+                            if not (same([o[1]], [ref[1]]) and same(o[2], ref[2])):
+                                rep.fail("history and p-value do not depend on the numeric type of the observations", dict(inp, typing=label),
+                                         got={"p": o[1], "history": o[2]}, expected={"p": ref[1], "history": ref[2]})
+    rep.sample({"test": "betting_mart", "bet": "fixed_bet", "x": [1, 0, 1], "typing": "int array"})
+    rep.exhaustive = True
